@@ -15,22 +15,30 @@ Tableau (steps h_i = h0 / 2**i):
 The returned value is the entry with the smallest error estimate
     e[i][j] = max(|A[i][j] - A[i][j-1]|, |A[i][j] - A[i-1][j-1]|)
 (Numerical Recipes, dfridr) to which the round-off floor of the difference quotient,
-    noise = 8 eps max|f| / h_i,
-is added: the returned `err` is  2 * e + noise  of the chosen entry - an estimate, inflated
-by a safety factor, never smaller than what the rounding of f alone can produce.
+    noise = (3 sigma + 8 eps max|f|) / h_i,
+is added, sigma being the *measured* evaluation noise of f (see `derivative`): the returned
+`err` is  2 * e + noise  of the chosen entry - an estimate, inflated by a safety factor, never
+smaller than what the rounding of f alone can produce.
 """
 import math
 
 EPS = 2.220446049250313e-16
 
 
-def derivative(f, h0, levels=3, max_levels=6, rel_target=1e-9, abs_target=1e-9, f_eps=8.0):
+def derivative(f, h0, levels=3, max_levels=6, rel_target=1e-9, abs_target=1e-9, f_eps=8.0, probes=3, probe_rel=1e-6):
     """Ridders' extrapolation of the central difference quotient of t -> f(t) at t = 0.
 
     levels      rows always computed
     max_levels  rows are added (halving the step) while the error estimate exceeds
-                rel_target*|d| + abs_target
-    returns (d, err, info) with info = {"rows", "h", "fmax", "noise", "evals", "finite"}
+                rel_target*|d| + abs_target and keeps improving
+    probes      number of extra evaluations at h0 (1 + k probe_rel), k = 1..probes, used to measure
+                the evaluation noise of f itself: second differences of these closely spaced values
+                contain no signal (spacing^2 f'' is far below one ulp), only rounding noise, so
+                sigma = max |second difference| / 2 estimates the amplitude of the noise in f.
+                (a rate matrix of order 61 diagonalised numerically has a noise of 1e4 eps, a
+                closed form a few eps: no fixed multiple of eps fits both)
+    returns (d, err, info) with info = {"rows", "h", "fmax", "noise", "sigma", "evals", "finite"};
+    err = 2 x (last correction of the tableau) + noise,  noise = (3 sigma + f_eps eps max|f|) / h.
     """
     if not (h0 > 0 and math.isfinite(h0)):
         raise ValueError("h0 must be positive and finite")
@@ -39,6 +47,7 @@ def derivative(f, h0, levels=3, max_levels=6, rel_target=1e-9, abs_target=1e-9, 
     fmax = 0.0
     evals = 0
     finite = True
+    sigma = 0.0
     h = h0
     i = 0
     while True:
@@ -49,31 +58,44 @@ def derivative(f, h0, levels=3, max_levels=6, rel_target=1e-9, abs_target=1e-9, 
             finite = False
             break
         fmax = max(fmax, abs(fp), abs(fm))
+        if i == 0 and probes >= 2:
+            pv = [fp]
+            for k in range(1, probes + 1):
+                pv.append(float(f(h * (1.0 + k * probe_rel))))
+                evals += 1
+            if all(math.isfinite(v) for v in pv):
+                sigma = max(abs(pv[k] - 2.0 * pv[k + 1] + pv[k + 2]) for k in range(len(pv) - 2)) / 2.0
+            else:
+                finite = False
+                break
         row = [(fp - fm) / (2.0 * h)]
         fac = 4.0
         for j in range(1, i + 1):
             row.append((fac * row[j - 1] - A[i - 1][j - 1]) / (fac - 1.0))
             fac *= 4.0
         A.append(row)
-        noise = f_eps * EPS * max(fmax, 1e-300) / h
-        if i == 0:
+        noise = (3.0 * sigma + f_eps * EPS * max(fmax, 1e-300)) / h
+        if i == 0 and best is None:
             # a single quotient has no internal estimate; only used when levels == 1
-            if best is None:
-                best, best_err, best_h = row[0], math.inf, h
+            best, best_err, best_h = row[0], math.inf, h
+        row_best = math.inf
         for j in range(1, i + 1):
             e = max(abs(row[j] - row[j - 1]), abs(row[j] - A[i - 1][j - 1]))
             tot = 2.0 * e + noise
+            row_best = min(row_best, tot)
             if tot < best_err:
                 best, best_err, best_h = row[j], tot, h
         i += 1
         if i >= levels:
             if best_err <= rel_target * abs(best) + abs_target or i >= max_levels:
                 break
+            if row_best > 2.0 * best_err or noise > best_err:
+                break  # halving the step no longer helps: round-off dominates
         h *= 0.5
     if not finite:
-        return float("nan"), float("inf"), {"rows": i, "h": h, "fmax": fmax, "noise": float("inf"), "evals": evals, "finite": False}
-    noise = f_eps * EPS * max(fmax, 1e-300) / best_h
-    return best, best_err, {"rows": i, "h": best_h, "fmax": fmax, "noise": noise, "evals": evals, "finite": True}
+        return float("nan"), float("inf"), {"rows": i, "h": h, "fmax": fmax, "noise": float("inf"), "sigma": sigma, "evals": evals, "finite": False}
+    noise = (3.0 * sigma + f_eps * EPS * max(fmax, 1e-300)) / best_h
+    return best, best_err, {"rows": i, "h": best_h, "fmax": fmax, "noise": noise, "sigma": sigma, "evals": evals, "finite": True}
 
 
 def gradient(fun, x, h, **kw):
